@@ -95,7 +95,7 @@ theorem emitMove_ok (p : Params) (hy : Hyp p) (e : Emit) (M : State) (hw : WF p 
       rcases hfree with hf | hf
       · rw [heq, hf] at hpj; exact absurd hpj (by simp)
       · exact h2 (heq.trans hf)
-    refine ⟨M', ⟨?_, ?_, ?_, ?_, ?_, ?_⟩, ?_, ?_⟩
+    refine ⟨M', ⟨?_, ?_, ?_, ?_, ?_, ?_, ?_⟩, ?_, ?_⟩
     · show c'.vars.length = p.n
       rw [← hc'def]; simp [Ctx.setVar, Ctx.setW, hcl]
     · show c'.wd.length = 4
@@ -188,6 +188,8 @@ theorem emitMove_ok (p : Params) (hy : Hyp p) (e : Emit) (M : State) (hw : WF p 
         have hji : j' ≠ i := by
           intro hh; subst hh; rw [hvdef, hg] at a2; exact hgg a2.symm
         rw [hvar'j j' hji]; exact ⟨a1, a2, a3⟩
+    · show c'.hasStackSrc = false
+      rw [← hc'def]; exact hw.hss
     · intro j hj hd
       show (c'.var j).done = true
       by_cases hji : j = i
